@@ -51,6 +51,15 @@ def main():
         "notes": "Every check: regenerate Gen from /repo, lake build the property's theorems, audit (no sorry/axiom/native_decide; #print axioms), correspondence + direct oracle on the real code, evidence. VERIF_SEED seeds every random choice. Exit 2 = no verdict (timeout/internal error).",
         "not_applicable": na,
     }
+    findings = []
+    fdir = os.path.join(VERIF, "findings")
+    if os.path.isdir(fdir):
+        for name in sorted(os.listdir(fdir)):
+            if name.endswith(".json"):
+                findings += json.load(open(os.path.join(fdir, name)))
+    with open(os.path.join(VERIF, "known_findings.json"), "w") as f:
+        json.dump(findings, f, indent=1)
+        f.write("\n")
     with open(os.path.join(VERIF, "MANIFEST.json"), "w") as f:
         json.dump(manifest, f, indent=1)
         f.write("\n")
